@@ -1,0 +1,77 @@
+//go:build verif
+
+package kernel
+
+import (
+	"github.com/MixinNetwork/mixin/common"
+	"github.com/MixinNetwork/mixin/crypto"
+	"github.com/MixinNetwork/mixin/storage"
+)
+
+// Verification hooks for property C29 (operator election and hour windows).
+// Thin exported wrappers around unexported functions; compiled only with -tags verif.
+
+// VerifC29NewNode builds a Node around a store and an already sorted node-state history
+// (the assignments LoadConsensusNodes makes), without starting any loop.
+func VerifC29NewNode(networkId crypto.Hash, epoch uint64, sorted []*CNode, genesis []crypto.Hash, store storage.Store) *Node {
+	node := &Node{
+		Epoch:           epoch,
+		networkId:       networkId,
+		persistStore:    store,
+		genesisNodesMap: make(map[crypto.Hash]bool),
+		genesisNodes:    genesis,
+	}
+	for _, id := range genesis {
+		node.genesisNodesMap[id] = true
+	}
+	node.allNodesSortedWithState = sorted
+	node.nodeStateSequences = node.buildNodeStateSequences(sorted, false)
+	node.acceptedNodeStateSequences = node.buildNodeStateSequences(sorted, true)
+	return node
+}
+
+func (node *Node) VerifSetGraphTimestamp(ts uint64) { node.GraphTimestamp = ts }
+
+func (node *Node) VerifElectSnapshotNode(operation byte, now uint64) crypto.Hash {
+	return node.electSnapshotNode(operation, now)
+}
+
+func (node *Node) VerifCheckRemovePossibility(nodeId crypto.Hash, now uint64, old *common.VersionedTransaction) (*CNode, error) {
+	return node.checkRemovePossibility(nodeId, now, old)
+}
+
+func (node *Node) VerifCheckConsensusAcceptHour(timestamp uint64) bool {
+	return node.checkConsensusAcceptHour(timestamp)
+}
+
+func (node *Node) VerifCheckConsensusPledgeHour(timestamp uint64) bool {
+	return node.checkConsensusPledgeHour(timestamp)
+}
+
+func (node *Node) VerifRemovingOrSlashingNodeAt(timestamp uint64) *CNode {
+	return node.removingOrSlashingNodeAt(timestamp)
+}
+
+func VerifPrepareNodeRemovalTime(now, epoch uint64) (uint64, bool) {
+	return prepareNodeRemovalTime(now, epoch)
+}
+
+func (node *Node) VerifValidateCustodianUpdateNodes(s *common.Snapshot, tx *common.VersionedTransaction, finalized bool) error {
+	return node.validateCustodianUpdateNodes(s, tx, finalized)
+}
+
+func (node *Node) VerifValidateNodeRemoveSnapshot(s *common.Snapshot, tx *common.VersionedTransaction, finalized bool) error {
+	return node.validateNodeRemoveSnapshot(s, tx, finalized)
+}
+
+func (node *Node) VerifValidateNodePledgeSnapshot(s *common.Snapshot, tx *common.VersionedTransaction, finalized bool) error {
+	return node.validateNodePledgeSnapshot(s, tx, finalized)
+}
+
+func (node *Node) VerifValidateNodeCancelSnapshot(s *common.Snapshot, tx *common.VersionedTransaction, finalized bool) error {
+	return node.validateNodeCancelSnapshot(s, tx, finalized)
+}
+
+func (node *Node) VerifValidateMintSnapshot(s *common.Snapshot, tx *common.VersionedTransaction) error {
+	return node.validateMintSnapshot(s, tx)
+}
